@@ -204,6 +204,10 @@ DOMNode* DOMElementNSImpl::rename(const XMLCh* namespaceURI, const XMLCh* name)
         throw;
     }
     fAttributes->reconcileDefaultAttributes(getDefaultAttributes());
+
+    // live getElementsByTagName() lists have to be recomputed
+    fParent.changed();
+
     // and fire user data NODE_RENAMED event
     castToNodeImpl(this)->callUserDataHandlers(DOMUserDataHandler::NODE_RENAMED, this, this);
 
